@@ -11,6 +11,7 @@ CONSTANTS
   MaxLen = 4
   IdxArgs <- MCIdxArgs
   NoArg = 99
+  Park = FALSE
 VIEW View
 CHECK_DEADLOCK FALSE
 INVARIANT EmitState
